@@ -696,6 +696,10 @@ MESH_SPECS = {
     'tet2': {'cls': 'MeshTet2', 'ctor': 'from_mesh', 'base': 'tet'},
     'hex2': {'cls': 'MeshHex2', 'ctor': 'from_mesh', 'base': 'hex'},
     'tri2_b': {'cls': 'MeshTri2', 'ctor': 'from_mesh', 'base': 'tri_b'},
+    # the library's default meshes, refined (triangles whose longest edge is not in a fixed local position)
+    'tri_r': {'cls': 'MeshTri', 'ctor': 'default_refined', 'args': [1]},
+    'tri_s': {'cls': 'MeshTri', 'ctor': 'init_sqsymmetric', 'args': []},
+    'tet_r': {'cls': 'MeshTet', 'ctor': 'default_refined', 'args': [1]},
 }
 ELEM_SPECS = {
     'tri': ['ElementTriP1', 'ElementTriP2', 'ElementTriMorley', 'ElementTriArgyris', 'ElementVector:ElementTriP1', 'ElementTriRT1'],
@@ -709,7 +713,8 @@ ELEM_SPECS = {
     'hex2': ['ElementHex2', 'ElementHex1'],
 }
 FAMILY = {'tri': 'tri', 'tri_b': 'tri', 'tri_c': 'tri', 'quad': 'quad', 'quad_b': 'quad', 'tet': 'tet', 'line': 'line',
-          'line_b': 'line', 'tri2': 'tri2', 'hex': 'hex', 'quad2': 'quad2', 'tet2': 'tet2', 'hex2': 'hex2', 'tri2_b': 'tri2'}
+          'line_b': 'line', 'tri2': 'tri2', 'hex': 'hex', 'quad2': 'quad2', 'tet2': 'tet2', 'hex2': 'hex2', 'tri2_b': 'tri2',
+          'tri_r': 'tri', 'tri_s': 'tri', 'tet_r': 'tet'}
 SOLVER_SPECS = {
     'krylov': ('solver_iter_krylov', {}),
     'direct': ('solver_direct_scipy', {}),
@@ -729,7 +734,11 @@ class Pool:
         if ('m', name) not in self.objs:
             s = MESH_SPECS[name]
             cls = getattr(skfem, s['cls'])
-            if s['ctor'] == 'from_mesh':
+            if s['ctor'] == 'default_refined':
+                m = cls().refined(*s['args'])
+            elif s['ctor'] == 'init_sqsymmetric':
+                m = cls.init_sqsymmetric()
+            elif s['ctor'] == 'from_mesh':
                 b = MESH_SPECS[s['base']]
                 m = cls.from_mesh(getattr(getattr(skfem, b['cls']), b['ctor'])(*[np.array(a) for a in b['args']]))
             elif s['ctor'] is None:
@@ -807,6 +816,14 @@ class Pool:
             fac, kw = SOLVER_SPECS[name]
             self.objs[k] = getattr(U, fac)(**kw)
         return self.objs[k]
+
+
+def make_pool_elem(name):
+    import skfem
+    parts = name.split(':')
+    if len(parts) == 2:
+        return getattr(skfem, parts[0])(int(parts[1]))
+    return getattr(skfem, parts[0])()
 
 
 def canon(x):
@@ -997,6 +1014,39 @@ def do_op(pool, d, mon):
             raise KeyError(d['how'])
         # the operand itself is part of the result: it must still be what a freshly tagged mesh is
         return canon([r, mt, {nm: int(len(v)) for nm, v in (mt.boundaries or {}).items()}])
+    if k == 'transform_use':
+        # transform a mesh that may have been USED before (lazy tables, mapping, KD-tree attached), then use the RESULT:
+        # nothing of the operand's geometry may survive in the new mesh
+        m = mon.watch(pool.mesh(d['mesh']), 'mesh')
+        how = d['how']
+        dim = m.dim()
+        if how == 'translated':
+            r = m.translated(tuple([3.0] + [1.0] * (dim - 1)))
+        elif how == 'scaled':
+            r = m.scaled(2.0)
+        elif how == 'mirrored':
+            r = m.mirrored(tuple([1.0] + [0.0] * (dim - 1)))
+        elif how == 'morphed':
+            r = m.morphed(*[(lambda pp, i=i: 1.5 * pp[i] + 0.125 * pp[(i + 1) % dim] + 2.0) for i in range(dim)])
+        elif how == 'with_boundaries':
+            r = m.with_boundaries({'low': lambda x: x[0] == 0.0})
+        elif how == 'with_subdomains':
+            r = m.with_subdomains({'a': lambda x: x[0] < 1.5})
+        else:
+            raise KeyError(how)
+        e = make_pool_elem(d['elem'])
+        bs = skfem.Basis(r, e)
+
+        @skfem.LinearForm
+        def f(v, w):
+            return v * (1.0 + w.x[0] + 2.0 * w.x[dim - 1])
+        out = [r, f.assemble(bs), bs.doflocs, r._mapping().F(_ref_points(fam, 0)), r.facets, r.boundary_nodes()]
+        if fam not in ('tri2', 'quad2', 'tet2', 'hex2'):
+            c0 = np.array([0, r.t.shape[1] - 1])
+            xq = r.p[:, r.t[:, c0]].mean(axis=1) + 1e-3
+            out.append(np.asarray(r.element_finder()(*xq)))
+            out.append(bs.probes(xq))
+        return canon(out)
     if k == 'transform':
         m = mon.watch(pool.mesh(d['mesh']), 'mesh')
         how = d['how']
@@ -1128,7 +1178,7 @@ SCALAR_H1 = ('ElementTriP1', 'ElementTriP2', 'ElementQuad1', 'ElementQuad2', 'El
 def random_subpool(rng):
     """a small set of objects to be shared by one history: one cell family, two meshes of it (same sizes, other
     geometry where available), two elements, so that objects ARE reused within <= 12 operations"""
-    fam = rng.choice(['tri', 'tri', 'quad', 'quad', 'line', 'line', 'tet', 'tri2', 'hex', 'quad2', 'tet2', 'hex2'])
+    fam = rng.choice(['tri', 'tri', 'tri', 'quad', 'quad', 'line', 'line', 'tet', 'tet', 'tri2', 'hex', 'quad2', 'tet2', 'hex2'])
     ms = [m for m, f in FAMILY.items() if f == fam]
     meshes = rng.sample(ms, min(2, len(ms)))
     elems = rng.sample(ELEM_SPECS[fam], min(2, len(ELEM_SPECS[fam])))
@@ -1148,6 +1198,8 @@ def random_op(rng, sub=None):
         kinds += ['lbasis', 'lbasis']
     if fam not in ('tri2', 'quad2', 'tet2', 'hex2'):
         kinds += ['transform', 'transform', 'io', 'retag', 'retag']
+    if ename in SCALAR_H1:
+        kinds += ['transform_use', 'transform_use']
     if ename in SCALAR_H1 and len([e for e in elems if e in SCALAR_H1]) >= 2:
         kinds += ['composite']
     if ename in SCALAR_H1:
@@ -1177,6 +1229,9 @@ def random_op(rng, sub=None):
         if fam in ('tri', 'tet', 'line'):
             hows += ['adaptive', 'smoothed'] if fam != 'line' else ['adaptive']
         return {'op': 'transform', 'mesh': mname, 'how': rng.choice(hows)}
+    if k == 'transform_use':
+        return {'op': 'transform_use', 'mesh': mname, 'elem': ename,
+                'how': rng.choice(['translated', 'scaled', 'mirrored', 'morphed', 'with_boundaries', 'with_subdomains'])}
     if k == 'retag':
         return {'op': 'retag', 'mesh': mname,
                 'how': rng.choice(['boundaries-same', 'boundaries-new', 'subdomains-same', 'subdomains-new', 'refined'])}
@@ -1475,6 +1530,34 @@ def search(ctx):
                      f'{name}: keyword arguments of an earlier call reach the backend of a later call', dict(w, site='closure'))
     # ---------------- constructors: caller-owned arrays and long-lived source meshes
     search_constructors(ctx)
+    # ---------------- use a mesh, transform it, use the result (every family x transformation)
+    first = {'tri': 'ElementTriP2', 'quad': 'ElementQuad1', 'tet': 'ElementTetP1', 'hex': 'ElementHex1', 'line': 'ElementLineP1',
+             'tri_r': 'ElementTriP1', 'quad2': 'ElementQuad2'}
+    for mname, ename in first.items():
+        for how in ('translated', 'scaled', 'mirrored', 'morphed', 'with_boundaries', 'with_subdomains'):
+            ops = [{'op': 'asm', 'mesh': mname, 'elem': ename}, {'op': 'conn', 'mesh': mname}]
+            if FAMILY[mname] not in ('quad2',):
+                ops.append({'op': 'probes', 'mesh': mname, 'elem': ename, 'pts': 2})
+            ops.append({'op': 'transform_use', 'mesh': mname, 'elem': ename, 'how': how})
+            problems, _ = run_history(ops)
+            ctx.count(('use-transform-use', mname, how), nontrivial=True)
+            for k, kind, detail in problems:
+                if k != len(ops) - 1:
+                    continue
+                key = f'history-dependent:used-mesh-then-{how}:{MESH_SPECS[mname]["cls"]}' if kind != 'mutated' else classify(ops[:k + 1], kind)
+                ctx.fail(key, f'a {MESH_SPECS[mname]["cls"]} that has been used (assembly, connectivity, point location) and is then {how}: the '
+                         f'NEW mesh does not behave like the same transformation of a fresh mesh ({kind}: {detail})',
+                         {'site': 'history', 'ops': ops, 'kind': kind, 'detail': detail})
+    # ---------------- adaptive refinement of meshes whose cells have to be re-sorted: the coarse mesh must not change
+    for mname in ('tri_r', 'tri_s', 'tet_r', 'tri', 'line'):
+        ops = [{'op': 'asm', 'mesh': mname, 'elem': ELEM_SPECS[FAMILY[mname]][0]}, {'op': 'transform', 'mesh': mname, 'how': 'adaptive'},
+               {'op': 'asm', 'mesh': mname, 'elem': ELEM_SPECS[FAMILY[mname]][0]}]
+        problems, _ = run_history(ops)
+        ctx.count(('adaptive-operand', mname), nontrivial=True)
+        for k, kind, detail in problems:
+            key = classify(ops[:k + 1], kind) if kind == 'mutated' else f'history-dependent:mesh-after-adaptive-refinement:{MESH_SPECS[mname]["cls"]}'
+            ctx.fail(key, f'adaptive refinement of a {MESH_SPECS[mname]["cls"]} ({mname}): {kind}: {detail}',
+                     {'site': 'history', 'ops': ops[:k + 1], 'kind': kind, 'detail': detail, 'changed': detail if kind == 'mutated' else None})
     # ---------------- caller-owned dictionaries handed to to_meshio / from_dict (every family)
     for mname in ('tri', 'quad', 'tet', 'hex', 'line', 'tri2'):
         for how in ('meshio', 'dict', 'json'):
